@@ -21,7 +21,7 @@ Qed.
 
 (* so is a name with optional qualifier and clauses in any order with any blanks (D10) *)
 Lemma alt_free name q cl : name <> [] -> forallb namec name = true -> eqc (peek name) 36 = false ->
-  (match q with None => True | Some a => forallb mac (arch_string a) = true /\ parse_arch (arch_string a) = a end) ->
+  (match q with None => True | Some a => forallb mac (arch_string a) = true /\ parse_arch (arch_string a) = a /\ arch_ok (arch_string a) = true end) ->
   clauses_ok (base name q) cl -> alt_ok (name ++ qual_text q ++ clauses_text cl) (result name q cl).
 Proof.
   intros Hne Hc Hd Ha W.
